@@ -31,6 +31,8 @@ CONSTANTS NB,              \* number of bases
                            \* relation r_k^2 = s_k + k n, which is only checked in the exponent, can be satisfied for a non-square (D49)
           GeneratorsDerived, \* the generators g, h of the group are derived from the (prover-chosen) group prime (repair of D50); FALSE:
                            \* fixed integers reduced modulo it, so that a prime dividing a^x - b^y gives the prover log_g h
+          SimCopies,       \* the SIMULATED 'bit = 1' branch of an exponentiation step sends, like the real one, a copy of the committed base power
+                           \* as its multiplier commitment (repair of D53); FALSE: a fresh random element, which tells the branches apart
           MulTied          \* expStepB rebuilds the multiplier's representation through the committed base power (repair of D33);
                            \* FALSE: the step's own commitment Mul is tied to nothing
 
@@ -96,6 +98,11 @@ Accept == /\ NonzeroGuard => zero = {}
 \* C17: an accepted proof establishes a safe-prime product and square bases
 Sound == Accept => ~lieN /\ lieB = {}
 Honest == (zero = {} /\ false = {}) => Accept
+StepView(bit) == [ achallenge |-> "uniform-256-bits-or-xor-thereof", bchallenge |-> "uniform-256-bits-or-xor-thereof",
+                   mulCommit  |-> IF bit = 1 THEN "copy-of-base-power" ELSE (IF SimCopies THEN "copy-of-base-power" ELSE "fresh-element"),
+                   responses  |-> "uniform-modulo-order" ]
+\* what an observer sees of one exponentiation step as a function of the secret exponent bit: an OR proof hides its bit iff the view is constant (D53)
+BranchHidden == StepView(0) = StepView(1)
 \* the minimal forgeries (vacuity of the guard: must be violated with NonzeroGuard = FALSE)
 NoForgery == ~(Accept /\ (lieN \/ lieB # {}))
 =============================================================================
